@@ -10,7 +10,7 @@ from .values import (SV, CV, XV, Opaque, EngineError, to_z, truth_z, ite, arith,
                      fresh, B, I, R, coerce, is_sym, ssqrt, sexp, slog10, ssin, scos, pi, spow, fresh_id, _flag_z,
                      F_arctan2)
 from .interp import Native, Namespace, PyRaise, CannotMerge, FuncVal
-from .arrays import (Arr, Series, Table, Mat, Space, elementwise, any_, all_, is_scalar, scalar_ite, scalar_isnan,
+from .arrays import (Arr, Series, Table, Mat, Space, MultiArr, elementwise, any_, all_, is_scalar, scalar_ite, scalar_isnan,
                      map_generic, subst, _mask_and, _is_boolish, FilteredTable, Cols, _key, _mask_eq)
 
 
@@ -240,9 +240,9 @@ def make_numpy(it):
             return Arr(a.space, v, a.mask)
         raise EngineError("zeros_like")
 
-    def full_like(it, x, val, dtype=None, **k):
+    def full_like(it, x, val=None, dtype=None, fill_value=None, **k):
         a = _arr(x)
-        return Arr(a.space, val, a.mask)
+        return Arr(a.space, val if val is not None else fill_value, a.mask)
 
     def ones_like(it, x, dtype=None, **k):
         a = _arr(x)
@@ -256,6 +256,8 @@ def make_numpy(it):
             return real_np.full(n, val)
         if getattr(it, "lenient_numpy", False):
             return Opaque("np allocation")
+        if isinstance(n, tuple) and len(n) == 2 and isinstance(n[1], int) and not isinstance(n[0], int):
+            return Cols([_alloc(it, n[0], val) for _ in range(n[1])])
         if isinstance(n, tuple) and len(n) == 2:
             raise EngineError("2-D allocation")
         raise EngineError(f"allocation of symbolic length {n!r}")
@@ -336,8 +338,13 @@ def make_numpy(it):
         "full": nat(lambda it, n=None, v=None, dtype=None, shape=None, fill_value=None, **k: _alloc(it, n if n is not None else shape, v if v is not None else fill_value), name="full"),
         "empty": nat(lambda it, n=None, dtype=None, shape=None, **k: _alloc(it, n if n is not None else shape, 0.0), name="empty"),
         "any": nat(np_any, name="any"), "all": nat(np_all, name="all"), "sum": nat(np_sum, name="sum"),
+        "max": nat(lambda it, x, axis=None, **k: _reduce2d(it, x, axis, s_max, "max"), name="max"),
+        "min": nat(lambda it, x, axis=None, **k: _reduce2d(it, x, axis, s_min, "min"), name="min"),
+        "amax": nat(lambda it, x, axis=None, **k: _reduce2d(it, x, axis, s_max, "max"), name="amax"),
         "isin": nat(np_isin, name="isin"), "in1d": nat(np_isin, name="in1d"),
+        "nonzero": nat(np_nonzero, name="nonzero"),
         "hstack": nat(hstack, name="hstack"), "concatenate": nat(hstack, name="concatenate"),
+        "vstack": nat(lambda it, xs, **k: Rows([_arr(x) for x in it.iterate(xs)]), name="vstack"),
         "errstate": nat(errstate, name="errstate"),
         "copy": nat(lambda it, x: it.call(it.stub_modules["copy"].get("copy"), [x], {}), name="copy"),
         "nan": float("nan"), "inf": float("inf"), "pi": pi(), "newaxis": None, "e": math.e,
@@ -384,8 +391,41 @@ def make_numpy(it):
     return Namespace("numpy", attrs, default=default)
 
 
+class Rows:
+    """np.vstack([a, b, c]): a 2-D array given by its rows (aligned 1-D arrays); .T gives the column view"""
+    is_array = True
+
+    def __init__(self, rows):
+        self.rows = list(rows)
+
+
+def _reduce2d(it, x, axis, fn, name):
+    if isinstance(x, Cols) and axis == 1:
+        return x.reduce_axis1(it, lambda a, b: fn(it, a, b))
+    if isinstance(x, Rows) and axis == 0:
+        return Cols(x.rows).reduce_axis1(it, lambda a, b: fn(it, a, b))
+    _no_reduce(name)
+
+
+def rows_attr(it, r, name):
+    if name == "T":
+        return Cols(r.rows)
+    raise EngineError(f"vstack(...).{name}")
+
+
+def _no_reduce(name):
+    raise EngineError(f"reduction np.{name} over rows is outside the generic-index fragment")
+
+
 def np_nonzero(it, c):
-    raise EngineError("np.where(cond) / nonzero: position lists are outside the generic-index fragment")
+    """np.nonzero(a) / np.where(cond): the positions where a is non-zero. In the generic-index fragment a position list is
+    only usable as an index (x[idx], x[idx] = v): it is represented by the boolean mask itself (numpy returns a 1-tuple)."""
+    a = _arr(c)
+    if isinstance(a, Arr):
+        e = a.e
+        m = e if _is_boolish(e) else compare("!=", e, 0)
+        return (Arr(a.space, m, a.mask),)
+    raise EngineError("np.nonzero of a non-array")
 
 
 class TypeTag:
@@ -698,6 +738,8 @@ def table_attr(it, t, name):
                 return Series(t, col)
             return default
         return nat(get)
+    if name == "query":
+        return nat(lambda it, q, **k: Opaque(f"{t.name}.query({q!r})"))
     if name in ("itertuples", "iterrows"):
         def rows(it, **k):
             from .interp import ObjVal
@@ -768,7 +810,33 @@ def ftable_attr(it, ft, name):
     raise EngineError(f"filtered DataFrame.{name}")
 
 
+def cols_attr(it, c, name):
+    def nat(fn):
+        return Native(fn, name=f"ndarray.{name}")
+    if name in ("real", "imag"):
+        return elementwise(it, lambda e: (s_real if name == "real" else s_imag)(it, e), c)
+    if name == "astype":
+        return nat(lambda it, t=None, **k: elementwise(it, lambda e: it.builtins["__astype__"](it, e, t), c))
+    if name in ("copy",):
+        return nat(lambda it: elementwise(it, lambda e: e, c))
+    if name in ("flatten", "ravel"):
+        return nat(lambda it: c)
+    if name == "T":
+        return c
+    raise EngineError(f"2-D array attribute .{name}")
+
+
+def mat_attr(it, m, name):
+    if name == "shape":
+        return (m.sym_len(it), Opaque(f"number of columns of {m.name}"))
+    return NotImplemented
+
+
 def install(it):
+    it.attr_hooks.append((Mat, mat_attr))
+    it.attr_hooks.append((Rows, rows_attr))
+    it.attr_hooks.append((Cols, cols_attr))
+    it.attr_hooks.append((MultiArr, cols_attr))
     it.attr_hooks.append((FilteredTable, ftable_attr))
     np_ns = make_numpy(it)
     it.stub_modules["numpy"] = np_ns
